@@ -24,6 +24,11 @@ Definition canon_of (pk : list nat) (r : irow) : irow := combine pk (pk_vals pk 
 Definition lock_key_text (table : bytes) (pk : list nat) (rows : list irow) : bytes :=
   build_lock_key table pk (map (canon_of pk) rows).
 
+(* the select-for-update executor has its OWN builder (selectForUpdateExecutor.buildLockKey): it reads the rows of
+   `SELECT <pk columns> ... FOR UPDATE`, i.e. exactly the key values in primary-key order *)
+Definition sfu_key_text (table : bytes) (pk : list nat) (ks : list key) : bytes :=
+  build_lock_key table pk (map (canon_row pk) ks).
+
 (* the image row r carries key k: for every key column, the first cell of that column holds k's value *)
 Definition has_key_for (pk : list nat) (k : key) (r : irow) : Prop :=
   Forall2 (fun c v => first_val c r = Some v) pk k.
